@@ -9,6 +9,7 @@ from vf.harness import Check
 from vf.gen import lens as GL
 from vf.gen.build import build
 from vf.gen import samples as GS
+from vf.gen.edit import edit_strategy, apply_edit
 from vf.ref import seidel as RS
 
 NAMES = ['TSC', 'SC', 'CC', 'TCC', 'TAC', 'AC', 'TPC', 'PC', 'DC', 'TAchC', 'LchC', 'TchC', 'S']
@@ -19,7 +20,9 @@ class C08(Check):
     pid = 'C08'
     title = 'Seidel and first-order chromatic terms equal the classical surface formulas'
     rule = ('cases: generated prescriptions of spheres and planes (profile "seidel": refracting + reflecting, ideal and '
-            'dispersive catalogue media, any stop, finite/infinite object, every aperture/field kind) + the 24 samples. '
+            'dispersive catalogue media, any stop, finite/infinite object, every aperture/field kind), optionally followed '
+            'by one edit of the same Optic (index / radius / thickness / stop moved) and a second evaluation of every term; '
+            '+ the 24 samples. '
             'Oracle, two routes: Smith\'s per-surface formulas fed with the ABCD reference rays and my own n(F), n(C); '
             'Welford\'s sums from the refraction invariants (library sums = -S_W). Identities on the returned families; '
             'stop-shift invariance of S_I and S_IV (metamorphic twin lens); small-aperture limit of the real marginal ray '
@@ -35,7 +38,8 @@ class C08(Check):
         return (150, 8) if tier == 'quick' else (3000, 16)
 
     def strategy(self, tier):
-        return GL.lens_spec('seidel').map(lambda s: dict(kind='spec', spec=s))
+        return st.fixed_dictionaries(dict(kind=st.just('spec'), spec=GL.lens_spec('seidel'),
+                                          edit=edit_strategy(('index', 'radius', 'thickness', 'stop', 'stop'))))
 
     def fixed_cases(self, tier):
         return [dict(kind='sample', name=n) for n in GS.sample_names()]
@@ -49,7 +53,22 @@ class C08(Check):
 
     def check(self, case, out):
         if case['kind'] == 'sample':
-            o = GS.make_sample(case['name'])
+            self.core(case, out, GS.make_sample(case['name']), None)
+            return
+        spec = case['spec']
+        out.cls(*GL.spec_classes(spec))
+        o = build(spec)
+        self.core(case, out, o, spec)
+        ed = case.get('edit')
+        if ed:
+            # history on one Optic (and its one Aberrations object): all terms, one edit, all terms again
+            spec2 = apply_edit(o, spec, ed)
+            if spec2 is not None:
+                out.cls('recomputed_after_' + ed['kind'] + '_edit')
+                self.core(case, out, o, spec2)
+
+    def core(self, case, out, o, spec):
+        if case['kind'] == 'sample':
             out.cls('sample')
             ps = GS.parax_from_optic(o)
             at, av = o.aperture.ap_type, o.aperture.value
@@ -63,9 +82,6 @@ class C08(Check):
                 return
             spec = None
         else:
-            spec = case['spec']
-            out.cls(*GL.spec_classes(spec))
-            o = build(spec)
             ps = GL.parax_sys(spec)
             at, av = spec['ap']['type'], spec['ap']['value']
             ftype, mf = spec['ftype'], GL.max_field(spec)
